@@ -3,13 +3,16 @@ C14 — rexpy results depend only on the multiset of examples and the seed.
 Proved here (for the batch path, i.e. below the sampling threshold): reordering the examples changes nothing
 (the whole result - patterns in order, extra letters, whitespace wrapping - is equal, with or without pruning
 options); list form = dictionary form; frequencies are irrelevant without pruning options; repeating an example
-is a no-op; a call is a pure function of its inputs (the model has no hidden state). The behaviour under
+is a no-op; the pandas-column form (pdextract) equals the list form; a call is a pure function of its inputs (the
+model has no hidden state). The behaviour under
 sampling, seeds, the regex memo and the global PRNG are decided by the oracle on the real code.
 -/
 import TddaVerif.Model.Rexpy
 import TddaVerif.Props.C03Spec
 import TddaVerif.Lemmas.RexpyInvariance
 import TddaVerif.Lemmas.RexpyPerm
+import TddaVerif.Model.RexpySeries
+import TddaVerif.Lemmas.RexpySeries
 
 namespace TddaVerif.Props.C14
 open TddaVerif.Py TddaVerif.Rexpy TddaVerif.Props.C03
@@ -48,5 +51,15 @@ theorem repeat_is_noop (T : CharTable) (o : Opts)
     (hin : (some s, n) ∈ items) (hn : n ≠ 0) :
     extract T o (items ++ [(some s, k)]) = extract T o items :=
   Lemmas.repeat_is_noop T o hprune items s n k hin hn
+
+/-- **pandas-column form** (pdextract): the distinct non-null values of each column, columns concatenated, give the
+    same result as the plain list of all the values - nulls and repeats included, any number of columns -/
+theorem series_eq_list (T : CharTable) (cols : List (List (Option Line))) :
+    extract T {} (pdextractItems cols) = extract T {} (cols.flatten.map (fun s => (s, 1))) :=
+  TddaVerif.Props.C03.Lemmas.series_eq_list T cols
+
+/- non-vacuity: two columns with a null, repeats within and across columns -/
+example : pdextractItems [[some "ab".toList, none, some "ab".toList], [some "ab".toList, some "c".toList]] =
+    [(some "ab".toList, 1), (some "ab".toList, 1), (some "c".toList, 1)] := by decide
 
 end TddaVerif.Props.C14
